@@ -150,7 +150,9 @@ FurthestFailure ==
                     IF customs # {} THEN e.cust \in customs
                     ELSE /\ e.cust = ""
                          /\ e.exp = UNION {ev.err.exp : ev \in AtMax(FlOf(d))}
-               /\ (Ety \in {"rich", "simple"} /\ e.cust = "") => e.found = OffTok(e.s)
+               \* `found` is the token at the start of the span (user-supplied errors carry no `found`;
+               \* Simple and Cheap cannot tell them apart, so the clause applies when none is involved)
+               /\ (Ety \in {"rich", "simple"} /\ customs = {}) => e.found = OffTok(e.s)
 
 (* C20: no "can't fail" unwrap is ever hit, and the machine makes progress *)
 NoPanic == ~st.panicked
